@@ -133,7 +133,8 @@ def fn_case(draw):
         args = draw(st.lists(st.one_of(arg_leaf, arg_tree), max_size=4))
         sites.append(args)
     shape = draw(st.sampled_from(['plus', 'array', 'nested', 'alone']))
-    return {'name': name, 'sites': sites, 'shape': shape, 'ret': draw(st.sampled_from(['int', 'int', 'text', 'list', 'none', 'float']))}
+    return {'name': name, 'sites': sites, 'shape': shape, 'ret': draw(st.sampled_from(['int', 'int', 'text', 'list', 'none', 'float'])),
+            'callable': draw(st.sampled_from(['function', 'function', 'function', 'empty-mapping', 'zero-length', 'bound-method']))}
 
 
 REF_ENV = {'vars': {'v_a': 4, 'v_b': 9}, 'cells': {'B2': 6}, 'funcs': {}}
@@ -154,6 +155,24 @@ def check_function(case):
         k = len(calls)
         calls.append(list(args))
         return rets(k)
+    if case.get('callable', 'function') != 'function':
+        # a host callable that is not a plain function: an instance with __call__ whose truth value is False (an empty mapping / a __len__ of 0), or a bound method
+        plain = recorder
+
+        class Empty(dict):
+            def __call__(self, *args):
+                return plain(*args)
+
+        class Sized(object):
+            def __len__(self):
+                return 0
+
+            def __call__(self, *args):
+                return plain(*args)
+
+            def method(self, *args):
+                return plain(*args)
+        recorder = {'empty-mapping': Empty(), 'zero-length': Sized(), 'bound-method': Sized().method}[case['callable']]
     if name.upper() in ('NA', 'MATCH', 'DATE'):
         # the error-producing argument texts call these built-ins themselves; under a custom function of that name they would be further call sites
         sites = [[['src', '(1/0)', '#DIV/0!'] if a[0] == 'src' else a for a in args] for args in sites]
